@@ -467,3 +467,21 @@ def standard_replay(ctx, path, trace, input_keys, replay_cmd="world-replay", is_
 
 WORLD_INPUT_KEYS = {"e", "t", "tn", "cfg", "align", "obs", "fresh", "fam", "op", "res", "rules", "id", "n", "in", "args",
                     "att", "err", "v"}
+
+
+def match_known(ctx, rej):
+    """A rejected history is a known finding if the first unmatched event satisfies a listed matcher
+    (all `match` key/values equal in that event).  Matchers live in known_findings.json only."""
+    at = rej["at"]
+    h = rej["history"]
+    if not (0 < at <= len(h)):
+        return None
+    try:
+        ev = json.loads(h[at - 1])
+    except Exception:
+        return None
+    for k in load_known(ctx.prop):
+        m = k.get("match", {})
+        if m and all(ev.get(a) == b for a, b in m.items()):
+            return k["what"]
+    return None
